@@ -290,6 +290,26 @@ Proof.
   destruct (Hx st) as [Ho|He]; [contradiction | symmetry; exact He].
 Qed.
 
+(* the three facts in the form Properties/C06.v states them *)
+Theorem walk_cap_fuel_nf cf d fuel n k st r st' :
+  (k <= d)%nat -> (tree_height n + reg_height (c_reg cf) * (d - k) <= fuel)%nat ->
+  depth_ st = k -> walk_cap cf d fuel n st = (r, st') ->
+  depth_ st' = k /\ nf r.
+Proof.
+  intros Hk Hf Hst Hrun.
+  destruct (walk_cap_fuel cf d fuel n k Hk Hf st r st' Hst Hrun) as [H1 H2].
+  split; [exact H1|]. destruct r; cbn in H2 |- *; tauto.
+Qed.
+
+Theorem walk_cap_monotone cf d d' f f' n st :
+  (d <= d')%nat -> (f <= f')%nat -> is_answer (fst (walk_cap cf d f n st)) ->
+  walk_cap cf d' f' n st = walk_cap cf d f n st.
+Proof.
+  intros Hd Hf [Hoof Hcap].
+  rewrite <- (walk_cap_fuel_monotone cf d f f' n st Hf Hoof) in Hcap |- *.
+  apply walk_cap_depth_monotone; assumption.
+Qed.
+
 (* ------------------------------------------------------------------ *)
 (* the quantitative statement *)
 
